@@ -35,3 +35,21 @@ for name in sorted(os.listdir(ROOT)):
     }
     json.dump(meta, open(os.path.join(d, "meta.json"), "w"), indent=1)
 print("wrote", len(det), "meta.json files")
+
+# the matrix of DESIGN.md section 12
+design = os.path.join(ROOT, "..", "DESIGN.md")
+if os.path.exists(design):
+    txt = open(design).read()
+    b, e = "<!-- SEED-MATRIX-BEGIN -->", "<!-- SEED-MATRIX-END -->"
+    if b in txt and e in txt:
+        rows = ["| seed | property | what it changes | caught by |", "|---|---|---|---|"]
+        for name in sorted(det):
+            m = json.load(open(os.path.join(ROOT, name, "meta.json")))
+            what = (m.get("what_it_changes") or det[name].get("note", "")).replace("|", "/")
+            if len(what) > 150:
+                what = what[:147] + "..."
+            caught = "; ".join(det[name]["caught_by"]) or "**not caught** (" + (det[name].get("note") or "see below") + ")"
+            rows.append(f"| {name} | {m['property']} | {what} | {caught} |")
+        txt = txt[: txt.index(b) + len(b)] + "\n" + "\n".join(rows) + "\n" + txt[txt.index(e):]
+        open(design, "w").write(txt)
+        print("matrix written:", len(rows) - 2, "rows")
